@@ -379,11 +379,11 @@ def valid_tags(thorough: bool):
     tr = lambda s, qu='"': ["_(", qu, s, qu, ")"]  # noqa: E731
     leaves += [
         ["u", "|", "default", ":"] + tr("x"),
-        tr("t") + ["|", "upper"],
         tr("t") + ["|", "default", ":"] + tr("x") + ["|", "upper"],
     ]
     if thorough:
         leaves += [
+            tr("t") + ["|", "upper"],
             q("s") + ["|", "default", ":"] + tr("x"),
             ["1", "|", "default", ":"] + tr("x y"),
             ["a", "|", "default", ":"] + tr("x", "'") + ["|", "upper"],
